@@ -10,7 +10,7 @@ import (
 	"time"
 )
 
-var c05Alpha = []Beh{BPass, BSkip, BFatalA, BFatalB, BPanicStr, BErrorf, BCleanupPanic, BFailNowC, BFailNowD, BPanicDivA, BPanicDivB}
+var c05Alpha = []Beh{BPass, BSkip, BFatalA, BFatalB, BPanicStr, BErrorf, BCleanupPanic, BFailNowC, BFailNowD, BPanicDivA, BPanicDivB, BFatalDeepA, BFatalDeepB}
 
 func finalBuffer(env *Env) ([]uint64, bool) {
 	for i := len(env.Bufs) - 1; i >= 0; i-- {
@@ -104,6 +104,7 @@ func c05Units(tier string, seed int64) []Unit {
 	progs := []func() *LazyProgram{
 		func() *LazyProgram { return progTwoSites() },
 		func() *LazyProgram { return progSameMessage() },
+		func() *LazyProgram { return progTwoDeepSites() },
 		func() *LazyProgram { return progNonFatalThenFatal() },
 		func() *LazyProgram { return progCustomMayDrawNothing() },
 		func() *LazyProgram { return progThreshold(100) },
@@ -120,6 +121,9 @@ func c05Units(tier string, seed int64) []Unit {
 	}
 	for pi, mk := range progs {
 		for s := 0; s < nseeds; s++ {
+			if quick && pi == 2 && s >= 2 {
+				continue // the deep-recursion program: every invocation walks 42 frames; two seeds in the quick tier
+			}
 			pi, mk := pi, mk
 			sd := uint64(seed)*6151 + uint64(s)*15485863 + 7
 			units = append(units, Unit{Name: fmt.Sprintf("C05/prog=%d/seed=%d", pi, sd), Run: func(c *Ctx) {
